@@ -247,6 +247,52 @@ func TestC07(t *testing.T) {
 					viol(fmt.Sprintf("DescribeCluster via %s server reports %s shards, lcm(%d,%d)=%d", dir, obs, local, remote, L), op)
 				}
 			}
+			// an upstream that is briefly unreachable after it has answered: whatever the proxy does about the failure (pass the
+			// error on, answer from memory), every ANSWER to an ordinary caller names the LCM, and every answer to a caller
+			// with the bypass header the real count
+			{
+				healthy := func(m string, req proto.Message, md metadata.MD) (proto.Message, error) {
+					return &adminservice.DescribeClusterResponse{HistoryShardCount: count, ClusterName: "c"}, nil
+				}
+				steps := []struct {
+					name    string
+					respond func(m string, req proto.Message, md metadata.MD) (proto.Message, error)
+				}{
+					{"healthy", healthy},
+					{"unavailable", func(string, proto.Message, metadata.MD) (proto.Message, error) {
+						return nil, status.Error(codes.Unavailable, "upstream restarting")
+					}},
+					{"deadline", func(string, proto.Message, metadata.MD) (proto.Message, error) {
+						return nil, status.Error(codes.DeadlineExceeded, "upstream slow")
+					}},
+					{"healthy-again", healthy},
+				}
+				for _, st := range steps {
+					be.Respond = st.respond
+					for _, bypass := range []bool{false, true, false} {
+						var md metadata.MD
+						if bypass {
+							md = metadata.Pairs(common.RequestTranslationHeaderName, "false")
+						}
+						resp, err := invoke(conn, adminDescribeMethod, nil, md)
+						op := fmt.Sprintf("# e2edesc-fault %d %d %s upstream=%s bypass=%v", local, remote, dir, st.name, bypass)
+						e.Emit(op, "#")
+						e.Evals++
+						e.Count("describe_with_upstream_" + st.name)
+						if err != nil {
+							continue // no answer: nothing was reported
+						}
+						got := resp.(*adminservice.DescribeClusterResponse).HistoryShardCount
+						want := int32(trueLCM(int64(local), int64(remote)))
+						if bypass {
+							want = count
+						}
+						if got != want {
+							viol(fmt.Sprintf("DescribeCluster via %s server (local=%d remote=%d), upstream %s, bypass header %v: the caller was told %d shards, expected %d", dir, local, remote, st.name, bypass, got, want), op)
+						}
+					}
+				}
+			}
 			// overlapping DescribeCluster calls: one with the bypass header is still in flight upstream when an ordinary one
 			// arrives — each caller gets the answer for ITS OWN request (the ordinary one the LCM, the bypass one the real count)
 			{
